@@ -2,7 +2,7 @@
 line protocol, and an independent RFC 8323 / RFC 7252 framer used as the oracle.
 
 Nothing in the "oracle" half of this file imports or calls aiocoap or mirrors the Lean
-model: it is written from RFC 8323 section 3.2/5 and RFC 7252 section 3.1.
+model: it is written from RFC 8323 section 3.2/5, RFC 7252 section 3.1 and (No-Response) RFC 7967.
 """
 import asyncio
 import logging
@@ -345,18 +345,33 @@ def o_single_frame(blob):
 
 
 def oracle_session(maxsize, stream, events, is_network_error):
-    """The property read over what the implementation did.  `events` as recorded by the fakes;
-    only the part up to and including the first close is judged.  Returns (verdict, key)."""
+    """The property read over what the implementation did.  `events` as recorded by the fakes:
+    the whole session is judged.  Up to and including the first close the events must be what
+    the frames of the stream demand, one after the other; after the endpoint has closed (its
+    own Abort, or the peer's Release/Abort) nothing may be dispatched or written any more,
+    whatever else was in the chunk that made it close.  Returns (verdict, key)."""
     for e in events:
         if e[0] == "EXC":
             return ("exception %s escaped data_received" % e[1], "tcp-exception-escaped:" + e[1])
         if e[0] in ("ABORT", "EOF"):
             return ("unexpected transport call " + e[0], "tcp-transport-call")
     ev = []
-    for e in events:
+    after = []
+    for n, e in enumerate(events):
         ev.append(e)
         if e[0] == "C":
+            after = events[n + 1:]
             break
+    for e in after:
+        # (the one thing that does follow is connection_lost -> pending requests failed; a
+        # repeated close() or error report is not judged here, the correspondence sees it)
+        if e[0] in ("Q", "R"):
+            return ("%s dispatched after the connection was closed (%s)"
+                    % ({"Q": "request", "R": "response"}[e[0]], render_fields(*e[1:5])), "tcp-after-close:dispatch")
+        if e[0] == "W":
+            fr = o_single_frame(e[1])
+            what = {227: "Pong", 229: "a second Abort"}.get(fr[0], "code %d" % fr[0]) if fr else "bytes"
+            return ("%s written after the connection was closed (%s)" % (what, e[1].hex()[:60]), "tcp-after-close:write")
     i = 0
     # the connection starts with our own CSM, announcing the configured maximum message size
     if not ev or ev[0][0] != "W":
@@ -462,4 +477,45 @@ def oracle_session(maxsize, stream, events, is_network_error):
                 i += 1
     if i < len(ev):
         return ("unexpected %s after %d frames" % (render_events(ev[i:i + 3]), k), "tcp-unexpected-event:" + ev[i][0])
+    return ("", "")
+
+
+def oracle_send(fields_before, fields_after, events):
+    """`send_message` of the token interface, read from the property ("outgoing messages are
+    serialised exactly ...", "identical ... options") and from aiocoap's documented use of
+    No-Response on responses (interfaces.py: a response carries the request's No-Response value
+    as an internal marker; the token interface drops the response when the marker says the
+    client is not interested in its class -- RFC 7967 section 2.1: 2 = 2.xx, 8 = 4.xx, 16 = 5.xx
+    -- and removes the marker otherwise).  Returns (verdict, key)."""
+    code, token, opts, payload = fields_before
+    for e in events:
+        if e[0] != "W":
+            return ("send_message caused %s" % render_events([e]), "tcp-send-event")
+    writes = [e[1] for e in events]
+    if not (64 <= code < 192):
+        # a request (or anything that is not a response): one frame, the message as handed in
+        want = o_frame(code, token, o_body(opts, payload))
+        if len(writes) != 1:
+            return ("request %s: %d frames written" % (render_fields(*fields_before), len(writes)), "tcp-send-request-options")
+        if writes[0] != want:
+            got = o_single_frame(writes[0])
+            return ("request %s went on the wire as %s" % (render_fields(*fields_before),
+                    render_fields(*got) if got else writes[0].hex()[:80]), "tcp-send-request-options")
+        if fields_after != fields_before:
+            return ("send_message changed the caller's request from %s to %s"
+                    % (render_fields(*fields_before), render_fields(*fields_after)), "tcp-send-request-mutated")
+        return ("", "")
+    marker = next((int.from_bytes(v, "big") for n, v in opts if n == 258), 0)
+    unwanted = {2: 2, 4: 8, 5: 16}.get(code >> 5, 0)          # RFC 7967, Table 2
+    if code >> 5 == 3 and marker & 4 and not writes:
+        return ("", "")                                         # bit 4 / class 3.xx: not defined by RFC 7967, either way is fine
+    if marker & unwanted:
+        if writes:
+            return ("response %s written although No-Response=%d suppresses its class"
+                    % (render_fields(*fields_before), marker), "tcp-send-response-no-response")
+        return ("", "")
+    want = o_frame(code, token, o_body([(n, v) for n, v in opts if n != 258], payload))
+    if len(writes) != 1 or writes[0] != want:
+        return ("response %s (No-Response marker %d) written as %s" % (render_fields(*fields_before), marker,
+                " ".join(w.hex()[:80] for w in writes) or "nothing"), "tcp-send-response-no-response")
     return ("", "")
